@@ -1796,6 +1796,7 @@ var corpus = []corpusStmt{
 	{"mixed-case", "SELECT rid, nosuchcol FROM Disk ORDER BY rid", []string{"Disk"}, nil, true, []string{"", "prod"}},
 	{"fastpath-partial", "SELECT rid FROM cpu\nUNION ALL\nSELECT rid FROM\ndisk", []string{"cpu", "disk"}, nil, false, []string{"prod"}},
 	{"fastpath-partial", "SELECT rid, cnt FROM\ncpu WHERE rid IN (SELECT rid FROM cpu) ORDER BY rid", []string{"cpu", "cpu"}, nil, true, []string{"prod"}},
+	{"fastpath-partial", "SELECT a.rid, b.rid FROM cpu a, mem b WHERE a.host = b.host ORDER BY a.rid, b.rid", []string{"cpu", "mem"}, nil, true, []string{"prod"}},
 	{"fastpath-cr", "SELECT rid, cnt FROM \r\ncpu ORDER BY rid", []string{"cpu"}, nil, true, []string{"prod"}},
 	{"with-newline", "WITH\nrecent AS (SELECT rid, host FROM mem WHERE host <> 'x')\nSELECT rid FROM recent ORDER BY rid", []string{"mem"}, []string{"recent"}, true, []string{"prod"}},
 	{"tablefunc", "SELECT g FROM range(1, 3) t(g) ORDER BY g", nil, nil, true, []string{"prod"}},
